@@ -5,6 +5,8 @@ import re
 
 import vlib
 from vlib import ToolError, log
+import simcheck
+import scenarios
 
 
 # ------------------------------------------------------------------------------------------
@@ -126,11 +128,31 @@ def rc(prop, cfgs, tags, note="reader cache driven through the cfg(dust_dds_veri
     }
 
 
+RTPS_NOTE = ("the real participants run in the deterministic simulation (public runtime/transport traits, no hooks); "
+             "Trace_Rtps.tla judges every recorded step; bounded liveness = heal + 3 s quiescence")
+
+
+def simprop(gen, owns, required, spec="Trace_Rtps", keep_sleep=False):
+    return {
+        "run": lambda p, tier, seed: simcheck.sim_check(p, tier, seed, gen(tier, seed), spec,
+                                                        lambda rule: any(rule.startswith(o + ":") for o in owns),
+                                                        required, RTPS_NOTE, keep_sleep=keep_sleep),
+        "replay": lambda p, path: simcheck.sim_replay(p, path, spec, keep_sleep=keep_sleep),
+    }
+
+
 def C(*names):
     return [f"MC_ReaderCache_{n}.cfg" for n in names]
 
 
 PROPS = {
+    "C01": simprop(scenarios.c01, ["C01", "C06"], {"data": 50, "acknack": 20, "take": 20, "final": 20, "faults": 10}),
+    "C02": simprop(scenarios.c02, ["C01", "C02", "C06"], {"data": 50, "take": 20, "faults": 10}),
+    "C05": simprop(scenarios.c05, ["C01", "C05", "C06"], {"frag": 100, "take": 20, "final": 20, "faults": 5}),
+    "C03": simprop(scenarios.c03, ["C01", "C03", "C06"], {"waitacks": 30, "data": 50, "faults": 10}),
+    "C04": simprop(scenarios.c04, ["C01", "C04", "C06"], {"waithist": 10, "data": 50, "gap": 5, "final": 30}),
+    "C27": simprop(scenarios.c27, ["C01", "C27", "C31", "C06"], {"blockedwrite": 20, "data": 50}),
+    "C29": simprop(scenarios.c29, ["C01", "C29", "C06"], {"data": 30, "final": 30}),
     "C18": rc("C18", {"quick": C("C18", "C18b", "C18c"), "thorough": C("C18", "C18b", "C18c")},
               ["history:keep-last-replaces-oldest"]),
     "C19": rc("C19", {"quick": C("C19"), "thorough": C("C19")}, ["limits:rejected"]),
